@@ -298,6 +298,11 @@ def run(R):
                     stats["exit_codes"][rc] = stats["exit_codes"].get(rc, 0) + 1
                     R.case(("cli", i, tuple(args)), nontrivial=True)
                     err = e.decode("utf-8", "replace")
+                    if rc in (-6, 134, -9, 137) and ("memory allocation of" in err or rc in (-9, 137)):
+                        # memory exhaustion under the checks' own address-space limit (lib/cli.py) or the kernel's: out of C16's scope
+                        # (a plan is quadratic in line length for patterns that match everywhere); counted, the sequence ends here
+                        stats["memory_exhausted_runs"] = stats.get("memory_exhausted_runs", 0) + 1
+                        break
                     if rc == 101 or "panicked at" in err or rc not in OK_EXITS:
                         fails.append({"why": f"command exited with status {rc}" + (": " + err[err.find("panicked at"):][:200] if "panicked at" in err else ""),
                                       "args": args, "tree": cli.tree_json(tree), "history": [list(x) for x in seq], "build": os.path.basename(os.path.dirname(b))})
